@@ -211,6 +211,18 @@ def oracle(case, obs) -> List[str]:
             got_q = sorted([e[0], e[1], e[2], e[3], e[4][0][1]] for e in cn["extra"] if e[0] == "Queue Length")
             if exp_q != got_q:
                 out.append(f"rank {r}: queue counter events differ from the series at unshifted time: missing {[x for x in exp_q if x not in got_q][:3]} extra {[x for x in got_q if x not in exp_q][:3]}")
+            # ... and in the file the last counter event of an instant carries the series' value after that instant
+            last_exp = {}
+            for s, seq in iq.items():
+                for x in seq:
+                    last_exp[(s, x[1] + obs["min_ts"])] = x[4]
+            last_got = {}
+            for e in cn["extra"]:
+                if e[0] == "Queue Length":
+                    last_got[(e[3], e[1])] = e[4][0][1]
+            badq = [(k, last_got.get(k), v) for k, v in last_exp.items() if k in last_got and last_got[k] != v][:3]
+            if badq and exp_q == got_q:
+                out.append(f"rank {r}: the last queue counter event of an instant differs from the series after that instant: (stream, ts), file, series {badq}")
             exp_b = sorted([ty, x[0] + obs["min_ts"], x[1], round(x[2], 6)] for ty, seq in c["bw"].get(r, {}).items() for x in seq)
             got_b = sorted([e[0], e[1], e[2], round(float(e[4][0][1]), 6)] for e in cn["extra"] if e[0] != "Queue Length")
             if exp_b != got_b:
